@@ -147,6 +147,8 @@ def build_term(fl, t):
 
 
 def norm(fl, name):
+    if name == "Mean":      # a user-supplied operator (Norms.tla: "Mean")
+        return fl.NormLambda(lambda a, b: (a + b) / 2)
     return None if name == "none" else getattr(fl, name)()
 
 
